@@ -45,6 +45,19 @@ impl Cfg {
         }
         c
     }
+    pub fn from_encoder(e: &config::Encoder) -> Cfg {
+        Cfg {
+            bs: e.block_size, mt: e.multithread, workers: e.workers.map(|w| w.get()),
+            ls: e.stereo_coding.use_leftside, rs: e.stereo_coding.use_rightside, ms: e.stereo_coding.use_midside,
+            uc: e.subframe_coding.use_constant, uf: e.subframe_coding.use_fixed, ul: e.subframe_coding.use_lpc,
+            fo: e.subframe_coding.fixed.max_order,
+            os: match e.subframe_coding.fixed.order_sel { config::OrderSel::BitCount => None, config::OrderSel::ApproxEnt { partitions } => Some(partitions), #[allow(unreachable_patterns)] _ => None },
+            lo: e.subframe_coding.qlpc.lpc_order, qp: e.subframe_coding.qlpc.quant_precision,
+            dm: e.subframe_coding.qlpc.use_direct_mse, ma: e.subframe_coding.qlpc.mae_optimization_steps,
+            win: match e.subframe_coding.qlpc.window { config::Window::Rectangle => None, config::Window::Tukey { alpha } => Some(alpha.to_bits()), #[allow(unreachable_patterns)] _ => None },
+            mp: e.subframe_coding.prc.max_parameter,
+        }
+    }
     pub fn to_encoder(&self) -> config::Encoder {
         let mut e = config::Encoder::default();
         e.block_size = self.bs;
